@@ -46,7 +46,7 @@ def run(oc, tier, seed, model_available, escalate):
         for a in rows:
             add("gfmulrow %d %d" % (prim, a), ",".join(str(em.reedsolo.gf_mul(a, b)) for b in range(256)))
         oc.count("gf rows (256 products each), prim %#x" % prim, len(list(rows)))
-    n_cases = 260 if tier == "quick" else 4000
+    n_cases = 700 if tier == "quick" else 10000
     if escalate:
         n_cases *= 2
     for i in range(n_cases):
